@@ -10,6 +10,7 @@ import (
 	"bytes"
 	"sync"
 
+	"github.com/dominant-strategies/go-quai/common"
 	"github.com/dominant-strategies/go-quai/ethdb"
 )
 
@@ -27,12 +28,25 @@ type topOp struct {
 
 type logDB struct {
 	ethdb.Database
-	mu  sync.Mutex
-	on  bool
-	log []topOp
+	mu      sync.Mutex
+	on      bool
+	log     []topOp
+	cleanup func() // closes the engine and removes its directory (leveldb / pebble images)
+}
+
+// release frees the resources of an image database.
+func (l *logDB) release() {
+	if l.cleanup != nil {
+		l.cleanup()
+		l.cleanup = nil
+	}
 }
 
 func newLogDB(inner ethdb.Database) *logDB { return &logDB{Database: inner} }
+
+// Location: memorydb reports no location (production leveldb/pebble databases are created with the
+// node's location, which rawdb uses to decode addresses of stored blocks); report the zone's.
+func (l *logDB) Location() common.Location { return common.Location{0, 0} }
 
 func (l *logDB) start() {
 	l.mu.Lock()
